@@ -121,8 +121,17 @@ def main(argv):
         for fn in inl:
             inlined.setdefault(fp(fn), []).append(g)
     rows = []
-    for rel in lib_sources():
-        src = open(os.path.join(REPO, rel), encoding="utf-8").read()
+    sources = [(rel, os.path.join(REPO, rel)) for rel in lib_sources()]
+    # third-party crates whose registry source a function translator read (tools/thirdparty.py): listed as
+    # extern/<crate>-<version>/<file>
+    import thirdparty
+    seen = set()
+    for name, version, trel, path in thirdparty.READS:
+        if path not in seen:
+            seen.add(path)
+            sources.append(("extern/%s-%s/%s" % (name, version, trel), path))
+    for rel, path in sources:
+        src = open(path, encoding="utf-8").read()
         fsha = sha(src)
         try:
             items = parse_file(src)
